@@ -251,6 +251,13 @@ def process_fn(text, block, applied, canary=False):
             if old in text:
                 text = text.replace(old, new)
                 applied.add("R2 path `%s` written as `%s`" % (old, new))
+        elif key == "resub":
+            # R8, count-free: regular-expression rewrite of a purely syntactic form (e.g. turbofish arity)
+            old, new, _n = _take_backticked(val)
+            text2 = re.sub(old, new, text)
+            if text2 != text:
+                applied.add("R8 regex rewrite `%s` => `%s`" % (old, new))
+            text = text2
         elif key == "substw":
             # like subst, but whitespace-insensitive (runs of whitespace in the pattern match any whitespace)
             old, new, n = _take_backticked(val)
